@@ -20,7 +20,7 @@ package evalfilter
 //@   requires evalOK(e)
 //@   ensures prepare.ok.env: e.environment != nil && e.environment.global != nil && e.environment.functions != nil
 //@   ensures prepare.ok.scopes: scopesOK(e.environment)
-//@   ensures prepare.ok.ctx: e.context != nil
+//@   ensures prepare.ok.ctx: e.context != nil && e.functions != nil
 //@   ensures @C09 prepare.context: err == nil ==> e.machine != nil && e.machine.context === e.context
 //@   ensures @C20 prepare.machine: err == nil ==> machineOK(e)
 //@   ensures @C18 prepare.fits: err == nil ==> len(e.instructions) <= 65535 && len(e.constants) <= 65536
@@ -54,6 +54,7 @@ package evalfilter
 //@   modifies e.constants, e.constants[*]
 //@   ensures @C18 @C01 addc.range: 0 <= idx && idx < len(e.constants) && len(e.constants) >= old(len(e.constants))
 //@   ensures @C01 @C15 addc.type: tag(e.constants[idx]) == tag(obj)
+//@   ensures @C01 @C06 addc.string: isStr(obj) ==> sval(e.constants[idx]) == sval(obj)
 //@   ensures @C01 addc.new: idx >= old(len(e.constants)) ==> e.constants[idx] === obj && len(e.constants) == old(len(e.constants)) + 1
 //@   ensures @C18 addc.prefix: forall i in 0..old(len(e.constants)) :: e.constants[i] === old(e.constants[i])
 //@   panics maybe
@@ -78,6 +79,8 @@ package evalfilter
 //@   ensures @C01 @C15 compile.int.pool: err == nil && istype(node, *ast.IntegerLiteral) && (node.(*ast.IntegerLiteral).Value < 0 || node.(*ast.IntegerLiteral).Value > 65534)
 //@             ==> len(e.instructions) == old(len(e.instructions)) + 3 && e.instructions[old(len(e.instructions))] == code.OpConstant
 //@   ensures @C01 compile.bool: err == nil && istype(node, *ast.BooleanLiteral) ==> len(e.instructions) == old(len(e.instructions)) + 1 && e.instructions[old(len(e.instructions))] == (node.(*ast.BooleanLiteral).Value ? code.OpTrue : code.OpFalse)
+//@   ensures @C06 compile.local: err == nil && istype(node, *ast.LocalVariable) && len(e.constants) <= 65536 ==> len(e.instructions) == old(len(e.instructions)) + 4 && e.instructions[old(len(e.instructions))] == code.OpConstant && e.instructions[old(len(e.instructions)) + 3] == code.OpLocal
+//@             && operandAt(e, old(len(e.instructions))) < len(e.constants) && isStr(e.constants[operandAt(e, old(len(e.instructions)))]) && sval(e.constants[operandAt(e, old(len(e.instructions)))]) == node.(*ast.LocalVariable).Token.Literal
 //@   ensures @C02 compile.return: err == nil && istype(node, *ast.ReturnStatement) ==> len(e.instructions) > old(len(e.instructions)) && e.instructions[len(e.instructions) - 1] == code.OpReturn
 //@   panics maybe
 //@ loop 1 invariant compile.inv.len: len(e.instructions) >= old(len(e.instructions)) && (arr(e.instructions) == old(arr(e.instructions)) || fresh(e.instructions))
@@ -185,9 +188,11 @@ package evalfilter
 
 // Execute turns every failure of a run - an error or a panic - into an error value (C08), and
 // Run reports the truth value of what Execute returned (C05, C20).
+// (the context in force is the one handed to the machine by Prepare: SetContext comes before Prepare)
 //@ func (e *Eval) Execute(obj interface{}) (out object.Object, err error)
 //@   tags C08
 //@   requires evalOK(e) && e.machine != nil && machineOK(e)
+//@   requires @C09 @C20 execute.context: e.machine.context === e.context
 //@   ensures @C08 @C20 execute.result: validObj(out) && (err != nil ==> isNull(out))
 //@   records result
 //@   ensures @C08 execute.ok: e.machine == old(e.machine) && e.environment == old(e.environment) && (err == nil ==> evalOK(e))
@@ -196,6 +201,7 @@ package evalfilter
 //@ func (e *Eval) Run(obj interface{}) (result bool, err error)
 //@   tags C08
 //@   requires evalOK(e) && e.machine != nil && machineOK(e)
+//@   requires @C09 @C20 run.context: e.machine.context === e.context
 //@   ensures @C08 run.ok: e.machine == old(e.machine) && e.environment == old(e.environment)
 //@   ensures @C05 @C20 run.verdict: err == nil ==> result == truthy(lastresult(Execute))
 //@   ensures @C20 run.fails: err != nil ==> result == false
